@@ -450,6 +450,10 @@ def _structure_harmonics(eng, ctx, ph, sh, mp, facts, coeffs):
         if e.kind == "setitem" and e.loops == (Lo,) and e.target[2] == ("const", "Layer Height"):
             ctx.check(in_layer(e.target[1], pre_of), "C18.D9", ph.qualname, "layer height stored in this layer's entry", expected="result[layer]['Layer Height'] (or the dict stored under the layer number)", found=show(e.target[1])[:70], **eng.loc(ph, e.node))
     d1 = [t for t in hts if t[0] == "call" and t[2] == ("builtin", "getattr") and t[3][0] == mp]
+    for t in d1:
+        nm = t[3][1]
+        fmts_ = [p_ for p_ in nm[1] if p_[0] == "fmt"] if nm[0] == "fstr" else []
+        ctx.check(len(fmts_) == 1 and fmts_[0][1] == ("bin", "+", lyr, ("const", 1)), "C18.D9", ph.qualname, "layer height attribute name", expected="<height field>_<layer + 1>", found=show(nm)[:70], **eng.loc(ph, lo.get("node", ph.node)))
     ctx.check(len(hts) == 1 and len(d1) == 1, "C18.D9", ph.qualname, "layer height entry", expected="'Layer Height' -> getattr(msg, <height field of this layer>) once per layer", found="; ".join(show(t)[:50] for t in hts) or "no 'Layer Height' entry", **eng.loc(ph, lo.get("node", ph.node)))
     # coefficient lists and probes
     inner = [lid for lid, info in sh.loop_info.items() if lid != Lo and info.get("iter") is not None and info["iter"][0] in ("const", "gval", "call") and "values" in show(info["iter"]) or (lid != Lo and is_const(info.get("iter", ("?",))))]
